@@ -439,6 +439,25 @@ for _name in ("user", "password", "path", "path_safe", "query_string", "fragment
                  props=("C06", "C19"),
                  note="the decoded accessor is the component's decoder applied to the raw component (decoder itself: bounded, C06)"))
 
+# ---------------------------------------------------------------- small constructors and accessors
+add(Contract("yarl._url:from_parts_uncached", [("scheme", STR), ("netloc", STR), ("path", STR), ("query", STR), ("fragment", STR)],
+             spec=spec_url.from_parts_spec, props=("C08", "C09", "C19"),
+             note="a fresh object with exactly these parts and an empty memo"))
+add(Contract("yarl._url:build_pre_encoded_url",
+             [("scheme", STR), ("authority", STR), ("user", OPT(STR)), ("password", OPT(STR)), ("host", STR), ("port", OPT(INT)),
+              ("path", STR), ("query_string", STR), ("fragment", STR)],
+             spec=spec_url.build_pre_encoded, requires=spec_url.bpe_requires, transparent=("yarl._parse:make_netloc",),
+             props=("C17", "C09", "C19"),
+             note="build(..., encoded=True): parts taken as they are, default port not stored"))
+for _name in ("raw_path_qs", "path_qs", "host"):
+    add(Contract(f"yarl._url:URL.{_name}", [("self", URLT)], spec=getattr(spec_url, _name),
+                 requires=spec_url.netloc_ok if _name == "host" else None,
+                 props=("C06", "C19") + (("C16",) if _name == "host" else ()) + (("C07",) if _name == "raw_path_qs" else ())))
+
+add(Lemma(spec_url.lemma_joinpath_two_steps, [("u", URLT), ("a", STR), ("b", STR), ("encoded", BOOL)],
+          requires=spec_url.lemma_joinpath_requires, props=("C13",),
+          note="joinpath(a, b) == joinpath(a).joinpath(b), on the specification that _make_child refines"))
+
 # ---------------------------------------------------------------- reference resolution (C14)
 add(Contract("yarl._url:URL.join", [("self", URLT), ("url", UNION(URLT, CONST(None, "x")))], spec=spec_url.join,
              requires=spec_url.join_requires, raises=(TypeError,), split_model="plist", props=("C14", "C02", "C19"),
